@@ -588,14 +588,16 @@ pub fn run_c06(sc: &HistSc, st: &mut Stats) -> HistOutcome {
         let full = small || step + 1 == sc.ops.len() || if uni.len() > 64 { step % 32 == 31 } else { step % 4 == 3 };
         for &q in &touched {
             if full {
-                for (i, k) in uni.iter().enumerate() {
+                // (a giant object is asked about a stride sample of some 32 keys: every query is a linear scan of the model)
+                let stride = if ms[q].len() > 5000 { uni.len() / 32 + 1 } else { 1 };
+                for (i, k) in uni.iter().enumerate().filter(|(i, _)| (i + step) % stride == 0) {
                     if let Err(m) = check_queries(&regs[q], &ms[q], k, (i + step) % 5 == 0, i + 3 * step) { return HistOutcome { violation: viol("c06.query", step, op, format!("register {}: {}", q, m)), outcome: d.finish(), nontrivial }; }
                     if let Some(map) = &maps[q] {
                         if let Err(m) = check_mapped_queries(&regs[q], map, &ms[q], k, i + 5 * step + 1) { return HistOutcome { violation: viol("c06.query", step, op, format!("register {}: {}", q, m)), outcome: d.finish(), nontrivial }; }
                         st.add("mapped_queries_checked", 8);
                     }
                 }
-                st.add("queries_checked", 10 * uni.len() as u64);
+                st.add("queries_checked", 10 * (uni.len() / stride) as u64);
             } else {
                 let mut ks: Vec<&str> = vec![uni.last().unwrap().as_str()];
                 if let Some(k) = op.key() { ks.push(k); }
